@@ -39,8 +39,10 @@ def main(chk):
             continue
         jobs.append({"id": len(jobs) + 1, "seed": st["seed"], "seq": st["seq"]})
     # the real seeds are arbitrary integers: spread them
+    # ... and need not be integers: random.seed takes str, bytes and float seeds as well
     for j in jobs:
         j["seed"] = j["seed"] * 7919 + 17
+        j["seed_kind"] = ["int", "str", "bytes", "float", "int"][j["id"] % 5]
     chk.require(len(jobs) >= 100, "too few sequences (%d)" % len(jobs))
     wd = tlc.workdir("C17_jobs")
     job_path = os.path.join(wd, "jobs.json")
